@@ -19,6 +19,11 @@ func (k msgServer) Vote(goCtx context.Context, msg *types.MsgVote) (*types.MsgVo
 	if err != nil {
 		return nil, err
 	}
+	// only the three defined choices can be tallied (an undefined value was counted as invalid for
+	// the groups' totals but as no vote at all for the team)
+	if _, ok := types.VoteEnum_name[int32(msg.Vote)]; !ok {
+		return nil, errors.New("invalid vote choice")
+	}
 	dispute, err := k.Keeper.Disputes.Get(ctx, msg.Id)
 	if err != nil {
 		return nil, err
